@@ -484,38 +484,43 @@ Definition dispatch (seqnum : N) (m : msg) : M (bool * bool) :=        (* (resul
   | _ => r <- app ;; ret (r, false)
   end.
 
+(* the try block of Session::process after the factory call *)
+Definition process_body (seqnum : N) (m : msg) : M bool :=
+  rr <- dispatch seqnum m ;;
+  modify (fun s => w_next_recv (s_next_recv s + 1) s) ;;;
+  modify update_persist_seqnums ;;;
+  (if snd rr then modify stop else ret tt) ;;;
+  ret (fst rr).
+
+(* the catch (f8Exception&) block *)
+Definition process_catch (seqnum : N) (mt : option bytes) (r : (bool + exc) * sess * list event)
+  : bool * sess * list event :=
+  match r with
+  | (inl b, s1, e1) => (b, s1, e1)
+  | (inr (Exc text true), s1, e1) =>
+    let '(s2, e2) :=
+      if (s_state s1 =? st_logon_received) && negb (pr_sd (s_par s1)) then
+        let sa := w_state st_session_terminated s1 in
+        let '(_, sb, eb) := send now sa (generate_logout (Some text)) 0 true in
+        (w_state st_logoff_sent sb, eb)
+      else (s1, []) in
+    (false, stop s2, (e1 ++ e2)%list)
+  | (inr (Exc text false), s1, e1) =>
+    let '(_, s2, e2) := handle_outbound_reject seqnum mt text s1 in
+    (true, w_next_recv (s_next_recv s2 + 1) s2, (e1 ++ e2)%list)
+  end.
+
 (* Session::process.  UNDEF = the raw 34= scan runs off the end of the string (no SOH follows) *)
 Definition process (raw : bytes) (s : sess) : bool * sess * list event :=
-  let catch (seqnum : N) (mt : option bytes) (r : (bool + exc) * sess * list event) : bool * sess * list event :=
-    match r with
-    | (inl b, s1, e1) => (b, s1, e1)
-    | (inr (Exc text true), s1, e1) =>
-      let '(s2, e2) :=
-        if (s_state s1 =? st_logon_received) && negb (pr_sd (s_par s1)) then
-          let sa := w_state st_session_terminated s1 in
-          let '(_, sb, eb) := send now sa (generate_logout (Some text)) 0 true in
-          (w_state st_logoff_sent sb, eb)
-        else (s1, []) in
-      (false, stop s2, (e1 ++ e2)%list)
-    | (inr (Exc text false), s1, e1) =>
-      let '(_, s2, e2) := handle_outbound_reject seqnum mt text s1 in
-      (true, w_next_recv (s_next_recv s2 + 1) s2, (e1 ++ e2)%list)
-    end in
   match find_after pat_34 raw with
-  | None => catch 0 None (throw (fmt2 txt_invmsg raw txt_at fl_process) false s)
+  | None => process_catch 0 None (throw (fmt2 txt_invmsg raw txt_at fl_process) false s)
   | Some rest =>
     match fast_atoi_u rest SOH 0 with
     | None => (false, s, [ENote [85;78;68;69;70]])
     | Some seqnum =>
       match decode raw with
-      | DecExc text force => catch seqnum None (throw text force s)
-      | DecOk m =>
-        catch seqnum (Some (m_type m))
-          ((rr <- dispatch seqnum m ;;
-            modify (fun s => w_next_recv (s_next_recv s + 1) s) ;;;
-            modify update_persist_seqnums ;;;
-            (if snd rr then modify stop else ret tt) ;;;
-            ret (fst rr)) s)
+      | DecExc text force => process_catch seqnum None (throw text force s)
+      | DecOk m => process_catch seqnum (Some (m_type m)) (process_body seqnum m s)
       end
     end
   end.
